@@ -120,6 +120,7 @@ PKG_MACROS = [
 ]
 PKG_ENVS = [('proof', 'amsthm'), ('align', 'amsmath'), ('otherlanguage', 'babel'), ('gather*', 'amsmath')]
 BUILTIN = ['\\LaTeX', '\\ref{k}', '\\label{k}', '\\ss', '\\cite{k}', '\\index{k}', '\\par', '\\quad']
+EXCLUDE_KNOWN = [False]        # set by the generated search, not by replays
 ZZ = ['\\zzA', '\\zzB', '\\zzC', '\\zzD', '\\zzE', '\\zzF', '\\zzG']
 ZZENV = ['zzenvA', 'zzenvB', 'zzenvC']
 LOADABLE = ['xcolor', 'hyperref', 'amsmath', 'tikz', 'circuitikz', 'babel', 'xspace', 'amsthm', 'listings', 'biblatex', 'glossaries-extra', 'mathtools']
@@ -167,6 +168,8 @@ class W:
         self.n = 0
         self.body_defined = False
         self.arity = {}
+        self.in_head = 0
+        self.excluded = {}
 
     def emit(self, s):
         if self.src and s and (s[0].isalpha() or s[0] == '@') and re.search(r'\\[a-zA-Z@]+$', self.src[-1]):
@@ -246,10 +249,14 @@ def rend(w, fl):
                          'mathfoot': ('$x\\footnote{', '}$'), 'dmathfoot': ('\\[ x = y \\footnote{', '} \\]')}[c]
             w.emit(pre)
             sub = it[2]
+            if c == 'head':
+                w.in_head += 1
             if c in ('itemlab',):
                 sub = [s for s in sub if s[0] in ('w', 'zz', 'builtin')]
                 sub = [(s[0], s[1], '', []) if s[0] == 'zz' else s for s in sub]
             rend(w, sub)
+            if c == 'head':
+                w.in_head -= 1
             w.emit(post + ' ')
         elif k == 'hidden':
             c, name = it[1], it[2]
@@ -280,6 +287,11 @@ def rend(w, fl):
                 w.emit('\n%%%%%% LT-SKIP-BEGIN\n%s x\n%% a note\n%%%%%% LT-SKIP-END\n' % name)
             elif c == 'skipregion':
                 w.emit('\n%%%%%% LT-SKIP-BEGIN\n%s x\n%%%%%% LT-SKIP-END\n' % name)
+        elif k == 'define' and w.in_head and EXCLUDE_KNOWN[0]:
+            # known finding F28 (a definition inside a heading argument is executed twice): excluded from the
+            # generated search by construction, counted; the recorded case itself is replayed on every run
+            w.excluded['F28: definition inside a heading argument -> word'] = w.excluded.get('F28: definition inside a heading argument -> word', 0) + 1
+            w.word()
         elif k == 'define':
             name, how = it[1], it[2]
             if how == 'body':
@@ -430,8 +442,12 @@ def run_shard(ctx):
 
     count = [0]
 
+    EXCLUDE_KNOWN[0] = True
+
     def one(doc):
         w, src, nt = check(doc)
+        for k, n in w.excluded.items():
+            ctx.stats.excluded[k] += n
         count[0] += 1
         if count[0] % (40 if ctx.tier == 'quick' else 10) == 0:
             shell_route(doc, src, w.expected)
